@@ -36,7 +36,8 @@ theorem keep_ident (s : Sampler) (r : Rec) (k : Bytes) (hn : isError r = false)
 
 /-- **same_key_same_fate**: two non-error records sharing their stream id (or, absent one, their
 request id) get the same decision from the same sampler configuration — at any two moments
-(the fallback counter may differ), for any rate and threshold. -/
+(the fallback counter may differ), for any rate and threshold, and whatever else the two
+records carry (`extra`: trace_id, span_id, method, principal, … may all differ). -/
 theorem same_key_same_fate (s₁ s₂ : Sampler) (r₁ r₂ : Rec) (k : Bytes)
     (hcfg : s₁.rateBits = s₂.rateBits ∧ s₁.threshold = s₂.threshold)
     (h₁ : isError r₁ = false) (h₂ : isError r₂ = false)
@@ -131,9 +132,11 @@ example : fnv1a32 [102, 111, 111, 98, 97, 114] = 0xbf9cf968 := by decide
 example : (keep smp (mkRec 2 (.str okB) (.str [97, 98]) (.str [97]))).1 = true ∧
     (keep smp (mkRec 2 (.str okB) (.str [97, 98]) (.str [97]))).2.2.sampleRate = some halfBits := by
   decide
--- same stream id, different request ids, different moments: same fate
-example : (keep smp (mkRec 3 (.str okB) (.str [97]) (.str [97, 98]))).1 =
-    (keep { smp with fallback := 9 } (mkRec 4 .absent (.str [97]) .other)).1 := by decide
+-- same stream id, different request ids, different moments, different trace ids: same fate
+example : (keep smp { mkRec 3 (.str okB) (.str [97]) (.str [97, 98]) with
+                      extra := [([116, 114, 97, 99, 101, 95, 105, 100], .str [97, 98])] }).1 =
+    (keep { smp with fallback := 9 } { mkRec 4 .absent (.str [97]) .other with
+                      extra := [([116, 114, 97, 99, 101, 95, 105, 100], .str [99])] }).1 := by decide
 -- the error record of the dropped stream "a" is kept
 example : (keep smp (mkRec 5 (.str errorBytes) (.str [97]) .absent)).1 = true := by decide
 example : f64GeOne halfBits = false ∧ f64GeOne f64One = true ∧ f64GtOne f64One = false := by decide
